@@ -1018,6 +1018,10 @@ class Engine:
             for alt in f.alts:
                 label, cond, kind, payload = alt[:4]
                 s2 = st0.fork()
+                # ... but the facts recorded by the first attempt stay: the outcomes (conditions, values) are written in terms of
+                # the symbols it introduced (a modelled call's result, a divmod quotient), and what is known about those symbols
+                # must not be lost
+                s2.pc = list(st.pc)
                 if len(alt) > 4 and alt[4] is not None:
                     alt[4](s2)
                 if cond is not None:
@@ -1253,8 +1257,11 @@ class Engine:
             for g in self.c.ghosts:
                 ghosts |= set(_assigned_names(ast.parse(_dedent(g.code)).body))
             self._ghost_names = ghosts
+        prog = getattr(self, '_prog_names', None)
+        if prog is None:
+            prog = self._prog_names = {n.id for n in ast.walk(self.fn) if isinstance(n, ast.Name)} | {a_.arg for a_ in ast.walk(self.fn) if isinstance(a_, ast.arg)}
         for k_, v_ in st.env.items():
-            if k_ != target.id and v_ is old and k_ not in ghosts and not k_.startswith('__'):
+            if k_ != target.id and v_ is old and k_ not in ghosts and k_ in prog:
                 raise Undecided('%s of %s while %s refers to the same object (aliasing of containers is not modelled)' % (what, target.id, k_))
 
     def store(self, cont, idx, v, st, node):
@@ -1268,6 +1275,16 @@ class Engine:
             et = cont.et or type_of_value(v)
             arr = cont.arr if cont.arr is not None else z3.Const(fresh_name('arr'), z3.ArraySort(z3.IntSort(), sort_of(et)))
             i = to_z3(idx, 'int')
+            iz = z3.simplify(i)
+            if z3.is_int_value(iz):
+                if iz.as_long() < 0:
+                    i = cont.len + i  # x[-k] = v stores at len(x) - k
+            elif feasible(list(st.pc) + [i < 0], 500):
+                i = z3.If(i < 0, cont.len + i, i)
+            if cont.arr is None or cont.et is None:
+                raise PyRaise(SExc('IndexError'))  # item assignment into an empty list
+            if not getattr(self, 'in_spec', False) and isinstance(node, ast.Subscript):
+                self.oblige(st, 'safety/store-index-in-range@L%d' % getattr(node, 'lineno', 0), z3.And(i >= 0, i < cont.len), kind='safety')
             return SList(cont.len, z3.Store(arr, i, to_z3(v, et)), et)
         if isinstance(cont, z3.ArrayRef):
             return z3.Store(cont, to_z3(idx), to_z3(v, _type_of_sort(cont.sort().range())))
@@ -1802,6 +1819,8 @@ class Engine:
         if isinstance(node.op, ast.Not):
             return z3.Not(self.truthy(v))  # (not reached: `not` is evaluated by ev_cond below)
         if isinstance(node.op, ast.USub):
+            if isinstance(v, z3.ExprRef) and z3.is_bool(v):
+                return -self.num(v)
             return -v if not isinstance(v, bool) else -int(v)
         if isinstance(node.op, ast.UAdd):
             return v
@@ -2012,7 +2031,7 @@ class Engine:
             cont = tuple(cont.keys())
         if isinstance(cont, frozenset):
             cont = tuple(sorted(cont, key=repr))
-        if isinstance(cont, (tuple, list)) and not (cont and cont[0] == 'range'):
+        if isinstance(cont, (tuple, list)) and not (cont and isinstance(cont[0], str) and cont[0] == 'range'):
             return z3.Or(*[self.equal(x, y) for y in cont]) if cont else z3.BoolVal(False)
         if isinstance(cont, SList):
             j = z3.Int(fresh_name('in_j'))
@@ -2049,6 +2068,10 @@ class Engine:
                 return r
             except KeyError:
                 raise Undecided('binary operator %s' % type(op).__name__)
+            except ZeroDivisionError:
+                raise PyRaise(SExc('ZeroDivisionError'))
+            except (ValueError, OverflowError, TypeError) as e_:
+                raise Undecided('constant arithmetic raises %s' % type(e_).__name__)
         if isinstance(op, ast.Add) and isinstance(a, SList) and isinstance(b, SList):
             return self.concat([a, b])
         if isinstance(op, ast.Add) and isinstance(a, tuple) and isinstance(b, tuple):
@@ -2484,7 +2507,7 @@ class Engine:
         v = self.ev(node.value, st)
         hook = self.c.calls.get('await')
         if hook is not None:
-            return hook(self, st, [v], {}, node)  # may raise Fork(node, ...) for a suspending await
+            return self._call_model(hook, st, [v], {}, node)  # may raise Fork(node, ...) for a suspending await
         return v
 
     def ev_NamedExpr(self, node, st):
@@ -2584,7 +2607,7 @@ class Engine:
         if fname is not None and fname in self.c.calls:
             args = [self.ev_lenient(a, st) for a in node.args]
             kw = {k.arg: self.ev_lenient(k.value, st) for k in node.keywords if k.arg is not None}
-            return self.c.calls[fname](self, st, args, kw, node)
+            return self._call_model(self.c.calls[fname], st, args, kw, node)
         if fname is not None and fname in self.callees:
             args = [self.ev(a, st) for a in node.args]
             kw = {k.arg: self.ev(k.value, st) for k in node.keywords}
@@ -2608,6 +2631,36 @@ class Engine:
         if isinstance(func, SDotted):
             return self.call_builtin(func.name, node, st)
         raise Undecided('call of %r' % (func,))
+
+    def _call_model(self, model, st, args, kw, node):
+        """call a contract-supplied model; what the model did to the state before it split the path (raise Fork) is part of
+        every outcome of the split: the statement is re-executed from the state before it, where the model is not called again"""
+        before = {k_: (v_.clone() if isinstance(v_, SRecord) else v_) for k_, v_ in st.env.items()}
+        try:
+            return model(self, st, args, kw, node)
+        except Fork as f:
+            delta = {}
+            for k_, v_ in st.env.items():
+                b_ = before.get(k_, before)
+                if b_ is before or (isinstance(v_, SRecord) and isinstance(b_, SRecord) and (v_.fields.keys() != b_.fields.keys() or any(v_.fields[x] is not b_.fields[x] for x in v_.fields))) or (not isinstance(v_, SRecord) and b_ is not v_):
+                    delta[k_] = v_
+            gone = [k_ for k_ in before if k_ not in st.env]
+            if delta or gone:
+                def wrap(alt):
+                    eff = alt[4] if len(alt) > 4 else None
+
+                    def apply(s, eff=eff):
+                        for k_, v_ in delta.items():
+                            s.env[k_] = v_.clone() if isinstance(v_, SRecord) else v_
+                        for k_ in gone:
+                            s.env.pop(k_, None)
+                        if eff is not None:
+                            eff(s)
+
+                    return tuple(alt[:4]) + (apply,)
+
+                f.alts = [wrap(x) for x in f.alts]
+            raise
 
     def call_lambda(self, func, node, st):
         lam, cenv = func[1], func[2]
@@ -3057,12 +3110,12 @@ class Engine:
         key = '.' + meth
         if key in self.c.calls:
             kw = {k.arg: self.ev(k.value, st) for k in node.keywords}
-            return self.c.calls[key](self, st, [recv] + args, kw, node)
+            return self._call_model(self.c.calls[key], st, [recv] + args, kw, node)
         if isinstance(recv, SRecord):
             key2 = '%s.%s' % (recv.cls, meth)
             if key2 in self.c.calls:
                 kw = {k.arg: self.ev(k.value, st) for k in node.keywords}
-                return self.c.calls[key2](self, st, [recv] + args, kw, node)
+                return self._call_model(self.c.calls[key2], st, [recv] + args, kw, node)
         if isinstance(recv, z3.ExprRef) and recv.sort() == U and self.c.opaque_methods:
             # a method of an opaque object the contract says nothing about: result havocked, call recorded (contracts that
             # enumerate every permitted call turn the record into a failed obligation)
